@@ -16,8 +16,7 @@ from ..loader import AnalysisError, unparse, call_name
 from ..dataflow import target_names
 from ..cfg import atomic_facts
 
-TECHNIQUE = ('static analysis: shape of the replacement predicate (control dependence of the replacement emission), '
-             'single-pass structure, classification of all str.replace call sites in the package')
+TECHNIQUE = ('static analysis: token sites (loops and comprehensions over any expression denoting the token stream of the text argument, through helpers and caches) with emissions normalised to token type / token text and guarded by branch-outcome facts; single-pass structure; classification of all str.replace call sites in the package; per-entry renaming loops')
 EXPLANATION = (
     'The emission of a replacement token must be control-dependent on a NAME-type test conjoined with an exact match of the '
     'token text (== target / membership in the lookup dict); every other token is emitted unchanged; the result list is '
